@@ -1,12 +1,17 @@
 #!/usr/bin/env python3
-"""seed_test.py <seeded/<id>> [PROP ...]: apply seeded/<id>/patch.diff to a scratch copy of /repo's sources,
+"""seed_test.py <seeded/<id>> [PROP ...] [-- extra check.py flags, e.g. --unit arith --tier thorough]: apply seeded/<id>/patch.diff to a scratch copy of /repo's sources,
 run the quick checks of the given properties (default: meta.json 'property' + 'also_check') against it, report which
 obligations fail.  Development aid (DESIGN 3.9); the registered checks themselves always run on /repo."""
 import json, os, shutil, subprocess, sys, tempfile
 VERIF = os.path.dirname(os.path.dirname(os.path.abspath(__file__)))
 sd = os.path.abspath(sys.argv[1])
 meta = json.load(open(os.path.join(sd, 'meta.json'))) if os.path.exists(os.path.join(sd, 'meta.json')) else {}
-props = sys.argv[2:] or ([meta.get('property')] + meta.get('also_check', []))
+args = sys.argv[2:]
+extra = []
+if '--' in args:
+    extra = args[args.index('--') + 1:]
+    args = args[:args.index('--')]
+props = args or ([meta.get('property')] + meta.get('also_check', []))
 tmp = tempfile.mkdtemp(prefix='seedrepo_')
 try:
     shutil.copytree('/repo/src', os.path.join(tmp, 'src'), ignore=shutil.ignore_patterns('*.o', '*.lo', '.libs', '.deps', '*.la'))
@@ -18,7 +23,7 @@ try:
         sys.exit(2)
     for p in props:
         env = dict(os.environ, VERIF_JOB_TIMEOUT=os.environ.get('VERIF_JOB_TIMEOUT', '600'))
-        out = subprocess.run([sys.executable, os.path.join(VERIF, 'tools', 'check.py'), p, '--repo', tmp, '--no-evidence'],
+        out = subprocess.run([sys.executable, os.path.join(VERIF, 'tools', 'check.py'), p, '--repo', tmp, '--no-evidence'] + extra,
                              stdout=subprocess.PIPE, stderr=subprocess.STDOUT, env=env).stdout.decode()
         v = [l for l in out.split('\n') if l.startswith('VIOLATION') or 'failed-obligation' in l or l.startswith('UNDECIDED') or l.startswith('property=')]
         print('--- %s' % p)
